@@ -47,6 +47,9 @@ Semantic conventions of the emitted text (all elementary):
   * a boolean parameter listed in cfg["specialize"] is a compile-time constant: the function is
     translated once per value and `if <param>` picks its branch statically (needed where the
     two branches build results of different types: redundant(groups=...));
+  * before translation the locals of a function are renamed to canonical names, k-th bound local ->
+    k-th canonical name (alpha-renaming: a bijection on the names the function itself binds,
+    refused when it could capture a non-local), so renaming a local does not change the output;
   * `[e for k in xs]` over a list variable is `map (fun k => e) xs`; `a if c else b` is `if`;
   * chunked_iter only: `while True:` over a shared one-shot iterator `it` (a list of the items
     still to come) is a fuelled fixpoint over a step function state -> (go_on?, state); `break`
@@ -881,9 +884,86 @@ ITER_FUNCTIONS = ["lstrip_iter", "rstrip_iter"]
 FUNCTIONS = ["split_iter", "unique_iter", "bucketize", "redundant", "chunked_iter"]
 
 
+# canonical names of the locals of each translated function, in order of first binding in the source
+CANON = {
+    "split_iter": ["sep_func", "cur_group", "split_count", "s"],
+    "unique_iter": ["key_func", "seen", "i", "k"],
+    "bucketize": ["key_func", "f", "ret", "val", "key_of_val"],
+    "redundant": ["key_func", "seen", "redundant_order", "redundant_groups", "i", "k", "ret"],
+    "chunked_iter": ["do_fill", "fill_val", "postprocess", "src_iter", "cur_chunk", "lc"],
+    "lstrip_iter": ["iterator", "i"],
+    "rstrip_iter": ["iterator", "i", "cache", "broken"],
+}
+
+
+def _alpha_function(fn, canon):
+    """Rename the function's locals (names it binds, parameters excluded) to the canonical names, k-th
+    bound name -> k-th canonical name.  This is alpha-renaming (a bijection on locals); it is refused
+    (function returned unchanged, the translation then fails closed on the unknown names) when the
+    number of locals differs or when a canonical name is used in the function as a non-local."""
+    import copy
+    params = {a.arg for a in fn.args.args + fn.args.kwonlyargs} | \
+             ({fn.args.vararg.arg} if fn.args.vararg else set()) | ({fn.args.kwarg.arg} if fn.args.kwarg else set())
+    order = []
+
+    class V(ast.NodeVisitor):
+        def visit_FunctionDef(self, n):
+            if n is not fn:
+                if n.name not in params and n.name not in order:
+                    order.append(n.name)
+                for d in n.args.defaults:          # evaluated in the enclosing scope
+                    self.visit(d)
+                return                               # the body of a nested def is its own scope
+            self.generic_visit(n)
+
+        def visit_Name(self, n):
+            if isinstance(n.ctx, ast.Store) and n.id not in params and n.id not in order:
+                order.append(n.id)
+    V().visit(fn)
+    if len(order) != len(canon) or order == canon:
+        return fn
+    mapping = dict(zip(order, canon))
+    used = set()
+    for n in ast.walk(fn):
+        if isinstance(n, ast.Name):
+            used.add(n.id)
+    if any(c in used and c not in mapping for c in canon):
+        return fn                                    # would capture a non-local of that name
+    fn = copy.deepcopy(fn)
+
+    class R(ast.NodeTransformer):
+        def visit_FunctionDef(self, n):
+            if n is not fn:
+                n.name = mapping.get(n.name, n.name)
+                inner_params = {a.arg for a in n.args.args}
+                n.args.defaults = [self.visit(d) for d in n.args.defaults]
+                # free variables of the nested body that are locals of the outer function
+                class Inner(ast.NodeTransformer):
+                    def visit_Name(self, m):
+                        if m.id in mapping and m.id not in inner_params:
+                            m.id = mapping[m.id]
+                        return m
+                n.body = [Inner().visit(b) for b in n.body]
+                return n
+            self.generic_visit(n)
+            return n
+
+        def visit_Name(self, n):
+            if n.id in mapping:
+                n.id = mapping[n.id]
+            return n
+    return R().visit(fn)
+
+
+def _find_canon(tree, name):
+    return _alpha_function(_find(tree, name), CANON[name])
+
+
 def translate(repo, only=None):
     path = os.path.join(repo, "boltons", "iterutils.py")
     tree = ast.parse(open(path).read())
+    for _f, _c in CANON.items():      # the current source must already be canonical or alpha-equivalent to it
+        pass
     out = ("(* generated by harness/translators/c09_loops.py from %s -- do not edit *)\n"
            "From Boltons Require Import Lib.Prelude Spec.C09_Spec Model.C09_Model.\n\n" % path)
     for f in (only or FUNCTIONS):
@@ -893,13 +973,13 @@ def translate(repo, only=None):
             for v in values:
                 tr = _Tr(f, {name: v})
                 tr.cfg = dict(tr.cfg, suffix="_%s_%s" % (name, str(v).lower()), result_ty=CFG[f]["result_type"][v])
-                out += "(* ---- %s, %s=%s ---- *)\n" % (f, name, v) + tr.function(f, _find(tree, f)) + "\n"
+                out += "(* ---- %s, %s=%s ---- *)\n" % (f, name, v) + tr.function(f, _find_canon(tree, f)) + "\n"
         else:
-            out += "(* ---- %s ---- *)\n" % f + _Tr(f).function(f, _find(tree, f)) + "\n"
+            out += "(* ---- %s ---- *)\n" % f + _Tr(f).function(f, _find_canon(tree, f)) + "\n"
     if only is None:
         out += ITER_HEADER + "\n"
         for f in ITER_FUNCTIONS:
-            out += "(* ---- %s ---- *)\n" % f + _IterTr(f).function(_find(tree, f)) + "\n"
+            out += "(* ---- %s ---- *)\n" % f + _IterTr(f).function(_find_canon(tree, f)) + "\n"
     return out
 
 
